@@ -673,6 +673,37 @@ theorem frame_both_sides (p : Server) (parts : Nat → List (List Nat)) (inv : S
         exact ⟨(hh se).mpr hk, fun hd => hc (g3 se hd hk')⟩
 
 
+/-- what `applyUpdate_held` needs of a message, relative to the receiver -/
+def MsgOk (c : Client) (u : Update) : Prop :=
+  u.mappings = [] ∧ ∀ r ∈ u.removals, (held c r.1 ∧ r.1 ∉ u.despawns) ∨ r.1 ∈ u.changes.map (·.ent)
+
+/-- the update message of a frame is acceptable for a receiver that holds the tracked entities -/
+theorem frame_msg_ok (p : Server) (inv : SyncInv p) (hrm : RemovalsMarked p)
+    (x : Nat × Cli) (hx : x ∈ p.clients) (hmap : x.2.mappings = [])
+    (c : Client) (hh : ∀ se, held c se ↔ se ∈ keys x.2)
+    (u : Update) (hu : (runClient p (p.now + 1) x.2).2.update = some u) : MsgOk c u := by
+  have hn := (inv.sync x hx).1
+  obtain ⟨_, _, k1, d1, _⟩ := runCl1_spec p x.2 hn
+  obtain ⟨e1, e2⟩ := (runClient_update p (p.now + 1) x.2).1 u hu
+  refine ⟨?_, ?_⟩
+  · unfold runClient at hu
+    simp only at hu
+    split at hu
+    · cases hu
+    · simp only [Option.some.injEq] at hu
+      rw [← hu]; exact hmap
+  · intro r hrm'
+    rcases removals_known_or_changed p (p.now + 1) x.2 hrm u hu r hrm' with h | h
+    · left
+      obtain ⟨hk, hnd, hnl⟩ := (k1 r.1).mp h
+      refine ⟨(hh r.1).mpr hk, ?_⟩
+      rw [e1]
+      intro hd
+      rcases d1 r.1 hd with h' | h'
+      · exact hnd h'
+      · rw [hnl] at h'; cases h'
+    · right; rw [e2]; exact h
+
 /-! ### buffered removals are for replicated entities, over histories in which a stopped server
 sees a frame before it is started again -/
 
